@@ -184,6 +184,32 @@ func VerifC10Write() {
 	zz.Reach("end")
 }
 
+// VerifC10WriteBig: the same with a track body of more than L bytes (a writer that splits large chunks into
+// several Write calls must report a failure in any of them).
+func VerifC10WriteBig() {
+	s := genSMF(1)
+	var tr Track
+	tr.Add(0, MetaText(string(make([]byte, zz.Param("L")))))
+	tr.Add(uint32(zz.U8("delta")), []byte{0x90, zz.U8("key") & 0x7F, 1})
+	tr.Close(0)
+	s.Add(tr)
+	var ref bytes.Buffer
+	n0, err0 := s.WriteTo(&ref)
+	zz.Assert(err0 == nil && n0 == int64(ref.Len()), "write:reference-write-ok")
+	total := ref.Len()
+	f := zz.Int("fail-after")
+	zz.Assume(f >= 0 && f <= total+1)
+	w := &faultWriter{limit: f}
+	n, err := s.WriteTo(w)
+	if f < total {
+		zz.Assert(err != nil, "write:failure-reported")
+	} else {
+		zz.Assert(err == nil, "write:no-error-when-all-accepted")
+		zz.Assert(n == int64(total), "write:size-is-bytes-written")
+	}
+	zz.Reach("end")
+}
+
 // faultReader fails with a sticky non-EOF error from byte offset `at` on.
 type faultReader struct {
 	data     []byte
